@@ -10,15 +10,24 @@ import re
 _CODE = re.compile(r"^c(\d+)$")
 
 
-def real_chain(exc):
-    """[(cid, key tuple, lineno)] outermost first, from exc.__traceback__"""
+def real_chain(exc, codes=None):
+    """[(cid, key tuple, lineno)] outermost first, from exc.__traceback__
+
+    Formula frames are recognised by the name of the rendered def (`c<i>`), or – with `codes`, a dict
+    {id(code object of a formula): cid} – by the identity of the code object that is running (needed for
+    formulas given as lambdas, whose frames are all called `<lambda>`; identity, because code objects
+    compiled from equal lambda sources compare equal)."""
     res = []
     tb = exc.__traceback__
     while tb is not None:
         fr = tb.tb_frame
         m = _CODE.match(fr.f_code.co_name)
+        if codes is not None:
+            cid = codes.get(id(fr.f_code))
+            m = cid is not None
         if m and "modelx" not in fr.f_code.co_filename.replace("\\", "/").split("/")[-2:-1]:
-            cid = int(m.group(1))
+            if codes is None:
+                cid = int(m.group(1))
             n = fr.f_code.co_argcount
             key = tuple(fr.f_locals.get("a%d" % i) for i in range(n))
             res.append((cid, key, tb.tb_lineno - fr.f_code.co_firstlineno + 1))
